@@ -1,6 +1,7 @@
 package sim
 
 import (
+	"bytes"
 	"context"
 	"crypto/ecdsa"
 	"crypto/ed25519"
@@ -416,6 +417,48 @@ func c20Sign(r *Run, t *tape.Tape, e c20Entry, n int, vec []int) {
 		for i, c := range calls {
 			m.Signatures = append(m.Signatures, &cose.Signature{Headers: hdr(c.key)})
 			signers[i] = c.signer()
+		}
+		if t.Bool(1, 5, "c20.presigned") {
+			// the message was completely signed before (by healthy signers
+			// of the same keys), its payload was edited, and it is signed
+			// again under the fault vector.  Whatever a library thinks of
+			// signing twice: a call that fails must not leave a message that
+			// serialises with some slots renewed and others not.
+			healthy := make([]cose.Signer, n)
+			for i, c := range calls {
+				healthy[i] = r.signerFor(c.key, false)
+			}
+			var e0 error
+			r.Lib(func() { e0 = m.Sign(NewEntropy(11), external, healthy...) })
+			if e0 == nil {
+				before := make([][]byte, n)
+				for i, sg := range m.Signatures {
+					before[i] = append([]byte{}, sg.Signature...)
+				}
+				m.Payload = append(append([]byte{}, payload...), 0x21)
+				var e1 error
+				r.Lib(func() { e1 = m.Sign(ent, external, signers...) })
+				e1 = r.TakeSeamPanic(e1)
+				r.Op("SIGN", "SignMessage.Sign again on a completely signed message (payload edited), vector %v -> %s", names, errTag(e1))
+				r.Outcome(fmt.Sprintf("SignMessage.Sign/presigned/n=%d/%s", n, errTag(e1)))
+				r.Fired("sign.again-on-signed-message")
+				r.Check()
+				if e1 != nil {
+					changed := false
+					for i, sg := range m.Signatures {
+						if !bytes.Equal(sg.Signature, before[i]) {
+							changed = true
+						}
+					}
+					var b []byte
+					var merr error
+					r.Lib(func() { b, merr = m.MarshalCBOR() })
+					if changed && merr == nil {
+						r.Fail("failed-sign-leaves-serialisable-half-signed-message/SignMessage.Sign", "Sign on an already signed COSE_Sign failed (%v) after renewing some signatures and not others, and the message still serialises: %s", e1, hexShort(b))
+					}
+				}
+				return
+			}
 		}
 		r.Lib(func() { err = m.Sign(ent, external, signers...) })
 		slots = func() [][]byte {
